@@ -5,6 +5,7 @@ import session_common as SC
 
 def tasks(tier, seed):
     ts = SC.session_tasks(tier, ['CHECK_C05'], 'c05', ('C05:',))
+    ts += SC.session_tasks(tier, ['CHECK_C05'], 'c05', ('C05:',), slow=True)     # slow producer: workers wait mid-container
     ts += SC.big_session_tasks(tier, 'c05', ('C05:',))
     meta = dict(
         level='model_checking',
